@@ -31,12 +31,16 @@ def main():
         os._exit(124)
 
     signal.signal(signal.SIGALRM, on_alarm)
+    signal.signal(signal.SIGPROF, on_alarm)
     with open(rpath, "ab") as out:
         for i in range(start, len(cases)):
-            signal.setitimer(signal.ITIMER_REAL, tmo)
+            # the per-case limit counts CPU time of this process (a busy machine does not turn a slow case into a "hang");
+            # wall-clock time is limited too, four times as generously
+            signal.setitimer(signal.ITIMER_PROF, tmo)
+            signal.setitimer(signal.ITIMER_REAL, 4 * tmo)
             # second line of defence: a C-level watchdog that fires even when the interpreter is stuck inside one long C call
             # (a multi-gigabyte bytes operation) and cannot run the Python-level signal handler
-            faulthandler.dump_traceback_later(tmo + 10, exit=True)
+            faulthandler.dump_traceback_later(4 * tmo + 15, exit=True)
             try:
                 r = st.impl(cases[i])
             except MemoryError:
@@ -53,6 +57,7 @@ def main():
                         where = f"{os.path.basename(fr.filename)}:{fr.lineno}:{fr.name}"
                         break
                 r = {"outcome": "exc", "exc": type(e).__name__, "msg": str(e)[:300], "where": where}
+            signal.setitimer(signal.ITIMER_PROF, 0)
             signal.setitimer(signal.ITIMER_REAL, 0)
             faulthandler.cancel_dump_traceback_later()
             pickle.dump(r, out)
